@@ -1,6 +1,9 @@
 // ---- external types -----------------------------------------------------------------------------------------------
 #[verifier::external_type_specification]
 #[verifier::external_body]
+pub struct ExPathBuf(std::path::PathBuf);
+#[verifier::external_type_specification]
+#[verifier::external_body]
 pub struct ExPath(std::path::Path);
 #[verifier::external_type_specification]
 #[verifier::external_body]
